@@ -60,8 +60,16 @@ def handleDetails (c s : String) : String :=
         s!"{Gen.detailsVariants.getD d.variant "?"} {raw}"
     | _, _ => "bad-op"
 
+/-- insertion sort of strings (the table list is short) -/
+def insertStr (x : String) : List String → List String
+  | [] => [x]
+  | y :: r => if x < y then x :: y :: r else y :: insertStr x r
+
 def handle (ws : List String) : String :=
   match ws with
+  | ["tables"] =>
+    -- the tables the translator found in the source, `name/width`, sorted: must be the list the harness enumerates
+    ",".intercalate ((Gen.typeenums.map fun t => s!"{t.name}/{t.width}").foldr insertStr [])
   | ["te", nm, n] =>
     match findTable nm, n.toNat? with
     | some t, some k =>
